@@ -25,6 +25,8 @@ func main() {
 		cmdCheck(os.Args[2:])
 	case "list":
 		cmdList(os.Args[2:])
+	case "genrt":
+		cmdGenRT(os.Args[2:])
 	case "genlocks":
 		cmdGenLocks(os.Args[2:])
 	case "replay":
